@@ -360,9 +360,27 @@ Theorem C08_between_undef_equal_cond :
 Proof. exact v_between_undef_equal. Qed.
 Print Assumptions C08_between_undef_equal_cond.
 
-(* PARTIAL: "an integer whenever the bounds admit one", for bounds whose hulls are exact (all non-algebraic kinds,
-   algebraic points, degree-1 algebraic numbers, infinities); the full statement is kept below *)
-Theorem C08_between_prefers_int_partial :
+(* "an integer whenever the bounds admit one" for ALL kinds of bounds, proper algebraic numbers included: needs the
+   constructor invariant int_free of the bounds, which every refinement step preserves *)
+Theorem C08_between_prefers_int_cond :
+  forall L : line,
+  line_ok L ->
+  forall (fuel : nat) (a : value) (sa : bool) (b : value) (sb : bool) (v : value) (k : Z),
+  vok L a ->
+  vok L b ->
+  int_free a ->
+  int_free b ->
+  v_between fuel a sa b sb = ROk v ->
+  match ecmp L (den L a) (den L b) with
+  | Eq => False
+  | Lt => within L (den L a) sa (EFin (LQ L (inject_Z k))) (den L b) sb
+  | Gt => within L (den L b) sb (EFin (LQ L (inject_Z k))) (den L a) sa
+  end -> v_is_integer v = true.
+Proof. exact v_between_prefers_int. Qed.
+Print Assumptions C08_between_prefers_int_cond.
+(* the same without int_free, for bounds whose hulls are exact (all non-algebraic kinds,
+   algebraic points, degree-1 algebraic numbers, infinities) *)
+Theorem C08_between_prefers_int_exact_hulls_cond :
   forall L : line,
   line_ok L ->
   forall (fuel : nat) (a : value) (sa : bool) (b : value) (sb : bool) (v : value) (k : Z),
@@ -377,7 +395,7 @@ Theorem C08_between_prefers_int_partial :
   | Gt => within L (den L b) sb (EFin (LQ L (inject_Z k))) (den L a) sa
   end -> v_is_integer v = true.
 Proof. exact v_between_prefers_int_partial. Qed.
-Print Assumptions C08_between_prefers_int_partial.
+Print Assumptions C08_between_prefers_int_exact_hulls_cond.
 Theorem C08_between_prefers_int_points_full :
   forall (fuel : nat) (a : value) (sa : bool) (b : value) (sb : bool) (v : value) (k : Z),
   vok QL a ->
@@ -517,16 +535,6 @@ Theorem C08_hash_path_points_full :
   int_free u -> int_free v -> eeq QL (den QL u) (den QL v) -> v_hash_path prec u = v_hash_path prec v.
 Proof. exact (v_hash_path_spec QL QL_ok). Qed.
 Print Assumptions C08_hash_path_points_full.
-
-(* what remains open: "prefers integers" of lp_value_get_value_between for bounds that are PROPER algebraic numbers
-   (needs int_free preserved along the refinement); C08_between_prefers_int_partial covers all other bounds *)
-Definition C08_between_prefers_int_full_statement : Prop :=
-  forall L : line, line_ok L ->
-  forall (fuel : nat) (a : value) (sa : bool) (b : value) (sb : bool) (v : value) (k : Z),
-  vok L a -> vok L b -> int_free a -> int_free b -> ecmp L (den L a) (den L b) = Lt ->
-  v_between fuel a sa b sb = ROk v ->
-  within L (den L a) sa (EFin (LQ L (inject_Z k))) (den L b) sb ->
-  v_is_integer v = true.
 
 (* ---- non-vacuity: the hypotheses are satisfiable and the functions compute *)
 Local Open Scope Z_scope.
